@@ -8,6 +8,7 @@ import (
 	"go/types"
 	"math/big"
 	"strconv"
+	"strings"
 
 	"golang.org/x/tools/go/ssa"
 )
@@ -105,6 +106,17 @@ func (se *SpecEnv) eval(e ast.Expr) Value {
 			return F.Or(se.eval(x.X).(*Term), se.eval(x.Y).(*Term))
 		}
 		a, b := se.rvalue(se.eval(x.X)), se.rvalue(se.eval(x.Y))
+		_, pa := a.(*PtrV)
+		_, pb := b.(*PtrV)
+		if !(pa && pb && (x.Op == token.EQL || x.Op == token.NEQ)) {
+			// lvalues of scalar cells are read
+			if pa {
+				a = se.rvalue(se.deref(a))
+			}
+			if pb {
+				b = se.rvalue(se.deref(b))
+			}
+		}
 		if x.Op == token.EQL || x.Op == token.NEQ {
 			r := se.fr.valueEq(se.state(), a, b, nil)
 			if x.Op == token.NEQ {
@@ -236,6 +248,9 @@ func (se *SpecEnv) ident(name string) Value {
 	}
 	if k, ok := v.specConsts[name]; ok {
 		return F.Int(k)
+	}
+	if strings.HasPrefix(name, "NR_") {
+		return F.Var("ring.nr."+name[3:], SInt)
 	}
 	if se.pkg != nil {
 		return se.pkgMember(se.pkg, name)
